@@ -78,6 +78,15 @@ def ill_formed_variants(sql, rnd):
             depth -= 1
         if depth > 0 and not t.isspace() and rnd.random() < 0.3:
             out.append(("truncate inside an open bracket", "".join(ts[:i + 1])))
+    # the last operand of an operator deleted where a clause keyword follows it: "a = <deleted> and b", "x + <deleted> from t", "when a > <deleted> then"
+    FOLLOW = {"and", "or", "from", "where", "group", "order", "having", "limit", "union", "then", "else", "end", "when", "on"}
+    OPS = {"=", "<", ">", "+", "-", "*", "/", "%", "||", "<>", "!=", "<=", ">=", "and", "or", "like", "between", "in"}
+    sig = [i for i, t in enumerate(ts) if not t.isspace()]
+    for a_, b_, c_ in zip(sig, sig[1:], sig[2:]):
+        if ts[a_].lower() in OPS and re.match(r"^(\w+|'[^']*')$", ts[b_]) and ts[b_].lower() not in RESERVED_WORDS and ts[c_].lower() in FOLLOW:
+            if ts[a_].lower() in ("and", "or") and ts[c_].lower() in ("and", "or"):
+                continue
+            out.append(("delete the last operand of an operator", "".join(ts[:b_] + ts[b_ + 1:])))
     # dangling operator / keyword at the very end (reserved words and symbols only: they cannot be read as an alias)
     if re.match(r"\s*\(?\s*(select|with|insert|update|delete)\b", sql, re.I) and not re.search(r"\binterval\b", sql, re.I):
         for tail in (" +", " and", " or", " =", " between 1 and", " not", " like", " in", " ( ", " where", " join", " order by", " group by", " union", " case when"):
